@@ -194,4 +194,18 @@ theorem content_frame (s : St) (op : Op) (hi : Inv s) (hp : PB s) (sh : Sheet) (
   | observe => simp only [step]; unfold observe; split <;> rfl
   | reopen => rfl
 
+/-- `find?` by a duplicate-free key returns the element at any index carrying that key (round 5) -/
+theorem find?_nodup_key {α β} [DecidableEq β] (f : α → β) : ∀ (l : List α) (j : Nat) (x : α), (l.map f).Nodup →
+    l[j]? = some x → l.find? (fun y => f y == f x) = some x
+  | [], j, x, _, h => by simp at h
+  | a :: t, 0, x, _, h => by
+    simp at h; subst h; simp
+  | a :: t, j + 1, x, hn, h => by
+    simp only [List.map_cons, List.nodup_cons] at hn
+    simp at h
+    have hx : x ∈ t := List.mem_of_getElem? h
+    have hne : f a ≠ f x := fun e => hn.1 (List.mem_map.mpr ⟨x, hx, e.symm⟩)
+    rw [List.find?_cons_of_neg (by simpa using hne)]
+    exact find?_nodup_key f t j x hn.2 h
+
 end XlModel.Sheets
